@@ -860,3 +860,53 @@ def relurl_depth(ctx):
     else:
         ctx.inconclusive.append("vacuity: nothing converted")
     ctx.sample({"paths": E.paths})
+
+
+# ---------------------------------------------------------------------------------------
+# O8: the links inside a static page's text are made relative to the directory the page is written to (every nesting depth)
+# ---------------------------------------------------------------------------------------
+def replay_static_dirs(w):
+    from fv.props import c17
+    return c17.replay_tree(w)
+
+
+@obligation("C09", "O8.static-pages-converted-for-their-own-directory", engine="SX(CV)+virtual file system", timeout=900)
+def static_page_dirs(ctx):
+    """get_page_tree on the symbolic page directory of C17 (titled/untitled pages, ordered_subpage lists, three nesting depths): the
+    Markdown of every page is converted for the directory `<output>/page/<location of the page>`, the one its HTML is written to"""
+    import ford.pagetree as pt
+    from fv.props import c17
+
+    ctx.encode_fn(pt.PageNode.__init__)
+    ctx.encode_fn(pt.get_page_tree)
+    ctx.stubs.append("as C17 O1: in-memory page directory; MetaMarkdown.convert records the directory it is called for")
+    ctx.bounds.update({"nesting depths": 3})
+
+    def h(E):
+        ch, entries = c17._tree(E, False)
+        E.e.snapshot = lambda m: {"choices": [_choice.value_in_model(m, x) for x in ch]}
+        try:
+            got = c17._run(entries, [])
+        except ValueError:
+            E.reachable("raised")
+            return
+        E.reachable("built")
+        for pth, used, written in list(c17._CONV):
+            if "/" in pth:
+                E.reachable("nested page")
+            E.require(used == written, f"the relative links of page {pth} are computed for directory '{used}', the page is written to '{written}'")
+
+    E = _sym.Engine(ctx, max_paths=50000, incremental=True)
+    found = E.explore(h)
+    seen = set()
+    for (label, m, pc), snap in zip(found, E.snapshots):
+        if label in seen or not snap:
+            continue
+        seen.add(label)
+        ctx.report(label, snap, replay_static_dirs)
+    for lab in ("built", "nested page"):
+        if E.reached.get(lab):
+            ctx.twins += 1
+        else:
+            ctx.inconclusive.append(f"vacuity: '{lab}' never reached")
+    ctx.sample({"paths": E.paths})
